@@ -35,7 +35,18 @@ struct UnifyScenario : Scenario {
    virtual Verdict extra_checks(World&, RunCtx&) const { return Verdict::ok(); }
    virtual void seed_world(World&) const { }
 
-   std::vector<std::string> probe_names() const override { return common_probe_names(); }
+   std::vector<std::string> probe_names() const override
+   {
+      auto n = common_probe_names();
+      const std::string me = id();
+      auto optional = [&](int i) { n[size_t(i)] = "opt." + n[size_t(i)]; };
+      if (me != "C01") { optional(P_natural_spelled); optional(P_default_eh_spelled); }
+      if (me != "C11") { optional(P_qual_chain); }
+      optional(P_qual_empty);
+      if (me != "C04") { optional(P_reserved_id); optional(P_value_pairs); }
+      if (me == "C11") { optional(P_long_run); }
+      return n;
+   }
    size_t prologue_count(int) const override { return 8; }
    Plan prologue(size_t i, int) const override
    {
